@@ -311,6 +311,13 @@ def ubigRadix (s : Bytes) (r : Nat) : Option Nat :=
   | .ok v => some v.toNat
   | .error _ => none
 
+/-- `parse_unsigned` of float/src/parse.rs: a component of the literal must not carry a sign
+    (`UBig::from_str_radix` alone would accept a leading `+`) -/
+def parseUnsigned (s : Bytes) (r : Nat) : Option Nat :=
+  match s with
+  | 43 :: _ => none
+  | _ => ubigRadix s r
+
 /-- scale markers of `Repr::<B>::from_str_native` -/
 def scaleMarkers (B : Nat) (pfx : Bool) : List Nat :=
   if B = 10 then [101, 69, 64]
@@ -343,26 +350,27 @@ def parseNativeRaw (B : Nat) (src0 : Bytes) : Option (Bool × Nat × Int × Nat)
           if B == 2 && pfx then
             let t := intStr.drop 2
             let dg := 4 * (t.length - countByte 95 t)
-            if t.isEmpty then some (0, dg, 16) else (ubigRadix t 16).map fun v => (v, dg, 16)
+            if t.isEmpty then some (0, dg, 16) else (parseUnsigned t 16).map fun v => (v, dg, 16)
           else if B == 2 && useP && !pfx then none
-          else (ubigRadix intStr B).map fun v => (v, intStr.length - countByte 95 intStr, B)
+          else (parseUnsigned intStr B).map fun v => (v, intStr.length - countByte 95 intStr, B)
         else if useP then none else some (0, 0, B) : Option (Nat × Nat × Nat))
       let fr := src.drop (dot + 1)
       let (fract, fractDigits) ← (
         if !fr.isEmpty then
           let d0 := fr.length - countByte 95 fr
           let d := if B == 2 && base == 16 then 4 * d0 else d0
-          (ubigRadix fr base).map fun v => (v, d)
+          (parseUnsigned fr base).map fun v => (v, d)
         else some (0, 0) : Option (Nat × Nat))
       let nd := intDigits + fractDigits
-      if fract = 0 then pure (neg, int, scale, nd)
+      if nd = 0 then none            -- both parts omitted (`0x.`): NoDigits
+      else if fract = 0 then pure (neg, int, scale, nd)
       else pure (neg, int * B ^ fractDigits + fract, scale - (fractDigits : Int), nd)
   | none =>
     if B == 2 && pfx then
       let t := src.drop 2
-      (ubigRadix t 16).map fun v => (neg, v, scale, 4 * (t.length - countByte 95 t))
+      (parseUnsigned t 16).map fun v => (neg, v, scale, 4 * (t.length - countByte 95 t))
     else if B == 2 && useP && !pfx then none
-    else (ubigRadix src B).map fun v => (neg, v, scale, src.length - countByte 95 src)
+    else (parseUnsigned src B).map fun v => (neg, v, scale, src.length - countByte 95 src)
 
 /-- `ReprVisitor::visit_str`: `from_str_native`, exponent arithmetic required to stay in `isize` -/
 def parseF (B : Nat) (s : Bytes) : Option (FVal × Nat) := do
